@@ -1,6 +1,7 @@
 package main
 
 import (
+	"runtime/debug"
 	"sort"
 
 	ucfg "github.com/elastic/go-ucfg"
@@ -77,6 +78,8 @@ func errOrNil(err error) interface{} {
 // after every op: its error, and the observation of every register
 func kForest(c J) interface{} {
 	n := numInt(c["regs"], 4)
+	// identities are addresses: nothing may be freed (and its address reused) while the history runs
+	defer debug.SetGCPercent(debug.SetGCPercent(-1))
 	forestRegs = make([]*ucfg.Config, n)
 	defer func() { forestRegs = nil }()
 	var steps []interface{}
